@@ -464,7 +464,11 @@ def main_pipeline(mod, ctx):
         "wall_s": round(wall, 2),
         "violations": violations,
     }
-    write_json(os.path.join(ROOT, "evidence", f"{pid}.json"), ev)
+    # evidence/ always describes /repo itself: a run against a scratch tree (BEMPP_REPO, used for seeded changes)
+    # writes next to the replays instead
+    evdir = os.path.join(ROOT, "replays", "scratch-evidence") if os.environ.get("BEMPP_REPO") else os.path.join(ROOT, "evidence")
+    os.makedirs(evdir, exist_ok=True)
+    write_json(os.path.join(evdir, f"{pid}.json"), ev)
     for l in lines:
         print(l)
     ctx.log(f"done: obligations {len(discharged)}/{len(theorems)}, cases {res.evaluations}, "
